@@ -94,6 +94,9 @@ def run(ck, tier):
     ck.rule("C03.arm-uniform", "every arm of the selection-kernel dispatches uses the slicing parameters that its siblings use", floor=4)
     tab = [e for e in arms.load_table() if e["fn"].startswith(("arrow_select::", "arrow_data::transform"))]
     arms.check(ck, F, "C03.arm-uniform", tab)
+    stab = [e for e in arms.load_sink_table() if e["fn"].startswith("arrow_data::transform") or e["fn"].startswith("arrow_select::")]
+    ck.rule("C03.sink-uniform", "every arm of the MutableArrayData / selection dispatches lets the offset / length it was given influence what it returns", floor=len(stab))
+    arms.check_sinks(ck, F, "C03.sink-uniform", stab)
     nullguard.check(ck, F, "C03.null-guarded-access", [f for f in nullguard.load_table() if f.startswith("arrow_select::")], 4)
     pairs.check_cross(ck, F, "C03.bitcopy-offset-slots", ["arrow_select", "arrow_data"], 2)
     pairs.check_threshold(ck, F, "C03.inline-view-threshold", ["arrow_select", "arrow_data", "arrow_array"], 15)
